@@ -51,7 +51,7 @@ Check ==
                ELSE "ok")
          ELSE "ok"
     [] Ev.t = "sys" /\ Ev.kind = "comp" ->
-         IF Ev.op = "flagrecord" THEN (IF Ev.id \notin DOMAIN comp \/ comp[Ev.id] \notin {"complete", "flagfile"} \/ ~Ev.metaDone THEN "flag-before-merged-table-complete" ELSE "ok")
+         IF Ev.op = "flagrecord" THEN (IF Ev.id \notin DOMAIN comp \/ comp[Ev.id] \notin {"complete", "flagfile", "flagged"} \/ ~Ev.metaDone THEN "flag-before-merged-table-complete" ELSE "ok")   \* ("flagged": a flag record of many inputs takes more than one write)
          ELSE IF Ev.op = "rename" THEN
               (IF Ev.id \notin DOMAIN comp \/ comp[Ev.id] # "flagged" THEN "rename-without-flag"
                ELSE IF Ev.target \in DOMAIN tab THEN "rename-over-existing-table" ELSE "ok")
